@@ -12,7 +12,9 @@ RULE = ("one case = one generated grammar (unbiased / mostly non-left-recursive 
         "generators, names permuted; 15 % grammars with ProdSequence / ListProds / MapProds keys incl. nullable members and items and recursion THROUGH the "
         "templates in both directions - items / members that start with the container again (a cycle unless brackets consume a "
         "token first) and right recursion X -> (container, X) | () behind bracketed and bracket-less containers; list / map delimiters and assign symbols that are (nullable) non-terminals; the reference "
-        "left-recursion test runs on the expanded productions; layered expression-like grammars of 8-40 levels with "
+        "left-recursion test runs on the expanded productions; observer methods (print_detailed_descr, descriptions, str, repr, is_ambiguous) between the parses of a "
+        "call sequence and parse with keyword arguments (debug, do_cleanup, src_name, start symbol) - any exception other than "
+        "ParsingError afterwards is a violation; layered expression-like grammars of 8-40 levels with "
         "exponentially many token-free paths (constructor must give its verdict within the line budget); "
         "keys with an empty list of alternatives in recursive and non-recursive grammars; long inputs; two threads on one parser "
         "object for every 40th accepted grammar), constructed with smart_factorization True and False, each followed by every token "
@@ -64,7 +66,9 @@ def oracle(case, replies):
                     return "missed-recursion: a symbol reaches itself without consuming a token, constructor says %r (smart=%s)" % (rep, smart)
                 if not ref and rep == "err GrammarIsRecursive":
                     return "false-alarm: no symbol reaches itself without consuming a token, GrammarIsRecursive raised (smart=%s)" % smart
-        elif op in ("p", "pl", "ps") and ctx["ok"]:
+        elif op.startswith("obs") and ctx["ok"] and rep != "ok":
+            return "observer-raises: %s gives %s" % (op, rep)
+        elif op in ll.PARSE_OPS and ctx["ok"]:
             if rep == "err StackBoundExceeded":
                 return ("stack-grows-without-bound: the parse stack exceeds (|tokens|+1)*(number of symbols+3) frames "
                         "on input %s" % ll._short(ll.dec_p(line)))
@@ -72,9 +76,9 @@ def oracle(case, replies):
                 return "parse-does-not-terminate: budget of %d line events exceeded on input %s" % (PARSE_BUDGET, ll._short(ll.dec_p(line)))
             if rep == "skipped-after-overrun":
                 continue
-            if op == "ps" and rep == "err AssertionError":
+            if ll.p_info(line)[0] is not None and rep == "err AssertionError":
                 continue                 # start_symbol_name is not a key of prods_map
-            if not (rep.startswith("tree ") or rep == "err ParsingError"):
+            if not (rep.startswith("tree ") or rep == "accepted" or rep == "err ParsingError"):
                 return "parse-raises: %s on input %s" % (rep[:60], ll._short(ll.dec_p(line)))
     if case.get("meta", {}).get("threads") and first_ok is not None:
         texts = [ll.dec_p(l) for l in case["lines"] if l.split()[0] == "p"][:40:5]
